@@ -12,22 +12,22 @@ def ctxOk (P : Char → Prop) (c : Ctx) : Prop := ∀ kv ∈ c, safeOk P kv.2
 
 def itemOk (P : Char → Prop) (it : LoopItem) : Prop := (∀ k, it.1 = some k → safeOk P k) ∧ safeOk P it.2
 
-structure loopOk (P : Char → Prop) (l : ForLoop) : Prop where
+structure loopClean (P : Char → Prop) (l : ForLoop) : Prop where
   remaining : ∀ it ∈ l.remaining, itemOk P it
   current : itemOk P l.current
   context : ctxOk P l.context
 
 def scopeOk (P : Char → Prop) : Scope → Prop
   | .mk loops setVars none context globalCtx =>
-    (∀ l ∈ loops, loopOk P l) ∧ ctxOk P setVars ∧ ctxOk P context ∧ (∀ g, globalCtx = some g → ctxOk P g)
+    (∀ l ∈ loops, loopClean P l) ∧ ctxOk P setVars ∧ ctxOk P context ∧ (∀ g, globalCtx = some g → ctxOk P g)
   | .mk loops setVars (some p) context globalCtx =>
-    (∀ l ∈ loops, loopOk P l) ∧ ctxOk P setVars ∧ ctxOk P context ∧
+    (∀ l ∈ loops, loopClean P l) ∧ ctxOk P setVars ∧ ctxOk P context ∧
       (∀ g, globalCtx = some g → ctxOk P g) ∧ scopeOk P p
 
 theorem scopeOk_mk (loops : List ForLoop) (setVars : Ctx) (parent : Option Scope) (context : Ctx)
     (globalCtx : Option Ctx) :
     scopeOk P (.mk loops setVars parent context globalCtx) ↔
-      ((∀ l ∈ loops, loopOk P l) ∧ ctxOk P setVars ∧
+      ((∀ l ∈ loops, loopClean P l) ∧ ctxOk P setVars ∧
       (match parent with
        | some p => scopeOk P p
        | none => True) ∧
@@ -68,7 +68,7 @@ theorem ctxOk_get {c : Ctx} {n : String} {v : Value} (hc : ctxOk P c) (h : c.get
 
 /-! ### loops -/
 
-theorem loopOk_get {l : ForLoop} {n : String} {v : Value} (hl : loopOk P l) (h : l.get n = some v) :
+theorem loopClean_get {l : ForLoop} {n : String} {v : Value} (hl : loopClean P l) (h : l.get n = some v) :
     safeOk P v := by
   unfold ForLoop.get at h
   repeat' split at h
@@ -86,7 +86,7 @@ theorem loopOk_get {l : ForLoop} {n : String} {v : Value} (hl : loopOk P l) (h :
     | none => simp
     | some k => exact hl.current.1 k hk
 
-theorem loopsGet_ok {loops : List ForLoop} {n : String} {v : Value} (hl : ∀ l ∈ loops, loopOk P l)
+theorem loopsGet_ok {loops : List ForLoop} {n : String} {v : Value} (hl : ∀ l ∈ loops, loopClean P l)
     (h : Scope.loopsGet loops n = some v) : safeOk P v := by
   induction loops with
   | nil => simp [Scope.loopsGet] at h
@@ -95,19 +95,19 @@ theorem loopsGet_ok {loops : List ForLoop} {n : String} {v : Value} (hl : ∀ l 
     split at h
     · rename_i x hx
       simp only [Option.some.injEq] at h; subst h
-      exact loopOk_get (hl l (by simp)) hx
+      exact loopClean_get (hl l (by simp)) hx
     · exact ih (fun l' h' => hl l' (by simp [h'])) h
 
-theorem loopOk_new {items : List LoopItem} (compr : Bool) (h : ∀ it ∈ items, itemOk P it) :
-    loopOk P (ForLoop.new items compr) :=
+theorem loopClean_new {items : List LoopItem} (compr : Bool) (h : ∀ it ∈ items, itemOk P it) :
+    loopClean P (ForLoop.new items compr) :=
   ⟨h, ⟨fun _ hk => (nomatch hk), safeOk_undef⟩, ctxOk_nil⟩
 
-theorem loopOk_storeLocalName {l : ForLoop} (n : String) (h : loopOk P l) : loopOk P (l.storeLocalName n) := by
+theorem loopClean_storeLocalName {l : ForLoop} (n : String) (h : loopClean P l) : loopClean P (l.storeLocalName n) := by
   unfold ForLoop.storeLocalName
   split <;> exact ⟨h.remaining, h.current, h.context⟩
 
-theorem loopOk_store {l : ForLoop} (n : String) {v : Value} (h : loopOk P l) (hv : safeOk P v) :
-    loopOk P (l.store n v) := by
+theorem loopClean_store {l : ForLoop} (n : String) {v : Value} (h : loopClean P l) (hv : safeOk P v) :
+    loopClean P (l.store n v) := by
   refine ⟨h.remaining, h.current, ?_⟩
   intro kv hkv
   simp only [ForLoop.store] at hkv
@@ -115,7 +115,7 @@ theorem loopOk_store {l : ForLoop} (n : String) {v : Value} (h : loopOk P l) (hv
   · exact hv
   · exact h.context kv (List.mem_filter.1 hk).1
 
-theorem loopOk_advance {l : ForLoop} (h : loopOk P l) : loopOk P l.advance := by
+theorem loopClean_advance {l : ForLoop} (h : loopClean P l) : loopClean P l.advance := by
   unfold ForLoop.advance
   split
   · exact h
@@ -127,13 +127,13 @@ theorem loopOk_advance {l : ForLoop} (h : loopOk P l) : loopOk P l.advance := by
     · exact ⟨hrest, hitem, ctxOk_nil⟩
     · exact ⟨hrest, hitem, h.context⟩
 
-theorem loopOk_iterate {l l' : ForLoop} {t : Nat} (h : loopOk P l) (hi : l.iterate t = some l') :
-    loopOk P l' := by
+theorem loopClean_iterate {l l' : ForLoop} {t : Nat} (h : loopClean P l) (hi : l.iterate t = some l') :
+    loopClean P l' := by
   unfold ForLoop.iterate at hi
   split at hi
   · cases hi
   · simp only [Option.some.injEq] at hi; subst hi
-    have := loopOk_advance h
+    have := loopClean_advance h
     exact ⟨this.remaining, this.current, this.context⟩
 
 /-! ### what a container yields -/
@@ -194,7 +194,7 @@ theorem iterItems_ok {v : Value} {items : List LoopItem} (hv : safeOk P v) (h : 
 /-! ### scopes -/
 
 theorem resolve_ok {loops : List ForLoop} {setVars context : Ctx} {globalCtx : Option Ctx}
-    {fromParent : Value} (n : String) (hl : ∀ l ∈ loops, loopOk P l) (hs : ctxOk P setVars)
+    {fromParent : Value} (n : String) (hl : ∀ l ∈ loops, loopClean P l) (hs : ctxOk P setVars)
     (hpar : safeOk P fromParent) (hc : ctxOk P context) (hg : ∀ g, globalCtx = some g → ctxOk P g) :
     safeOk P (Scope.resolve loops setVars fromParent context globalCtx n) := by
   unfold Scope.resolve
@@ -253,7 +253,7 @@ theorem scopeOk_dumpContext : ∀ (sc : Scope), scopeOk P sc → safeOk P (dumpC
       | none => simp
       | some g => exact ctxInto_ok (by simp) (hgc g rfl)
     have h1 := ctxInto_ok (ctxInto_ok (h0 globalCtx hg) hc) hs
-    have : ∀ (l : List ForLoop) (a : Entries), (∀ x ∈ l, loopOk P x) → safeOk P (.map a) →
+    have : ∀ (l : List ForLoop) (a : Entries), (∀ x ∈ l, loopClean P x) → safeOk P (.map a) →
         safeOk P (.map (l.foldl (fun a l => ctxInto a l.context) a)) := by
       intro l
       induction l with
@@ -290,10 +290,10 @@ theorem scopeOk_storeLocal : ∀ (sc : Scope) (n : String) (v : Value), scopeOk 
     refine ⟨?_, hs, hp, hc, hg⟩
     intro x hx
     rcases List.mem_cons.1 hx with rfl | hx
-    · exact loopOk_store n (hl l (by simp)) hv
+    · exact loopClean_store n (hl l (by simp)) hv
     · exact hl x (by simp [hx])
 
-theorem scopeOk_pushLoop : ∀ (sc : Scope) (l : ForLoop), scopeOk P sc → loopOk P l → scopeOk P (sc.pushLoop l)
+theorem scopeOk_pushLoop : ∀ (sc : Scope) (l : ForLoop), scopeOk P sc → loopClean P l → scopeOk P (sc.pushLoop l)
   | .mk loops setVars parent context globalCtx, l, h, hl' => by
     rw [scopeOk_mk] at h
     obtain ⟨hl, hs, hp, hc, hg⟩ := h
@@ -313,7 +313,7 @@ theorem scopeOk_popLoop : ∀ (sc : Scope), scopeOk P sc → scopeOk P sc.popLoo
     rw [scopeOk_mk]
     exact ⟨fun x hx => hl x (List.mem_of_mem_tail hx), hs, hp, hc, hg⟩
 
-theorem scopeOk_setTopLoop : ∀ (sc : Scope) (l : ForLoop), scopeOk P sc → loopOk P l →
+theorem scopeOk_setTopLoop : ∀ (sc : Scope) (l : ForLoop), scopeOk P sc → loopClean P l →
     scopeOk P (sc.setTopLoop l)
   | .mk [] setVars parent context globalCtx, l, h, _ => h
   | .mk (l0 :: rest) setVars parent context globalCtx, l, h, hl' => by
@@ -327,7 +327,7 @@ theorem scopeOk_setTopLoop : ∀ (sc : Scope) (l : ForLoop), scopeOk P sc → lo
     · exact hl'
     · exact hl x (by simp [hx])
 
-theorem scopeOk_forLoops : ∀ (sc : Scope), scopeOk P sc → ∀ l ∈ sc.forLoops, loopOk P l
+theorem scopeOk_forLoops : ∀ (sc : Scope), scopeOk P sc → ∀ l ∈ sc.forLoops, loopClean P l
   | .mk _ _ _ _ _, h => ((scopeOk_mk ..).1 h).1
 
 theorem scopeOk_included : ∀ (sc : Scope), scopeOk P sc → scopeOk P (Scope.included sc)
